@@ -295,7 +295,8 @@ def main(argv=None):
         print(l)
     print(f"{prop} [{tier}] theorems {pr['discharged']}/{pr['obligations']} checked; {evaluations} implementation runs, "
           f"{nontriv} distinct non-trivial cases compared in Coq, {len(mism)} mismatches, "
-          f"{len((meta or {}).get('direct_violations', []))} direct violations; {time.time() - t0:.1f}s")
+          f"{len((meta or {}).get('direct_violations', []))} direct-oracle failures "
+          f"({len(failing) - len(real)} failing cases match a known finding, {len(real)} do not); {time.time() - t0:.1f}s")
     return 1 if out_lines else 0
 
 
